@@ -752,15 +752,16 @@ async fn run_async(sc: &Scenario, roots: Vec<PathBuf>) -> Trace {
         let mut seq: u64 = 0;
         let mut ord: HashMap<(usize, usize), u32> = HashMap::new();
         let mut ind_fired: Vec<bool> = vec![false; sc.actions.len()];
+        // puts first: a user command scheduled for the same instant follows the Put it refers to
+        for (idx, p) in sc.puts.iter().enumerate() {
+            heap.push(std::cmp::Reverse((p.at_ms, seq, Event::IssuePut { idx })));
+            seq += 1;
+        }
         for (idx, a) in sc.actions.iter().enumerate() {
             if let Trigger::AtMs(t) = a.trigger {
                 heap.push(std::cmp::Reverse((t, seq, Event::Act { idx })));
                 seq += 1;
             }
-        }
-        for (idx, p) in sc.puts.iter().enumerate() {
-            heap.push(std::cmp::Reverse((p.at_ms, seq, Event::IssuePut { idx })));
-            seq += 1;
         }
         sh.lock().unwrap().pending_events = heap.len();
         loop {
